@@ -105,7 +105,7 @@ def attributable(f, what, detail):
 
 def correspond(ctx, C):
     st = S.SpecStats()
-    rows = S.run(ctx, C, "speccat", 128, 1280) + S.run(ctx, C, "spec", 256, 4000) + S.run(ctx, C, "specmut", 160, 3000)
+    rows = S.run(ctx, C, "speccat", 128, 1280) + S.run(ctx, C, "spec", 256, 4000) + S.run(ctx, C, "specmut", 160, 4000)
     known = S.known_for(C, "C10")
     viol, attributed = [], {}
     orders = 0
@@ -128,4 +128,12 @@ def correspond(ctx, C):
     cov = st.coverage(RULE)
     cov["attributed_to_known_findings"] = attributed
     cov["iteration_orders_sampled"] = orders
-    return {"coverage": cov, "violations": viol[:3], "known": lines}
+    # the pipeline theorems are about the model of the whole of Validate: its verdict is the code's, in both modes
+    nwhole, wbad = S.whole_model_tie(rows)
+    cov["whole_model_verdicts_compared"] = nwhole
+    cov["tie_mismatches"] = len(wbad)
+    out = viol[:3]
+    if not out and wbad:
+        case, info = wbad[0]
+        out.append((case, dict(info, tie_cases=len(wbad), no_failing_input=True)))
+    return {"coverage": cov, "violations": out, "known": lines}
